@@ -41,6 +41,7 @@ def handlers : List (String × (Case → String)) := [
   ("leak", Drivers.Cancel.runLeak),
   ("nextret", Drivers.Cancel.runNextRet),
   ("ctxpair", Drivers.Cancel.runCtxPair),
+  ("lateuse", Drivers.Cancel.runLateUse),
   ("timed", Drivers.Timed.run),
   ("plugin", Drivers.Plugin.run),
   ("resub", Drivers.Resub.run),
